@@ -82,6 +82,14 @@ theorem cancel_after_finish_without_flag_is_inert (c : Cfg) (s : State) (id : Na
     hCancelWorkflow c s id = [[.mark id]] := by
   simp [hCancelWorkflow, h, hc]
 
+/-- F60: `StartWorkflow` for a workflow that was canceled before it started (the flag is set, the status still NOT_STARTED)
+hands it to the regular cancel path - it pushes `CancelWorkflow`, whose handler cancels every stage and queues the
+`CompleteWorkflow` that gives the workflow its final status - instead of consuming the message without effect. -/
+theorem start_of_canceled_workflow_goes_to_cancel_path (c : Cfg) (s : State) (id : Nat)
+    (hw : s.wfStatus = .notStarted) (hc : s.canceled = true) :
+    hStartWorkflow c s id = [[.push .cancelWorkflow]] := by
+  simp [hStartWorkflow, hw, hc]
+
 /-- F56: a `JumpToStage` handled after a cancel was accepted is consumed without effect: it neither completes its source
 stage nor resets or skips any other stage, for every source, target and state. -/
 theorem jump_after_cancel_is_inert (c : Cfg) (s : State) (id src tgt : Nat) (hc : s.canceled = true) :
